@@ -1789,7 +1789,7 @@ class Transaction(object):
                 n_signs += 1
 
             if not n_signs:
-                break
+                continue
 
             # Add already known signatures on correct position
             n_sigs_to_insert = len(self.inputs[tid].signatures)
